@@ -254,12 +254,12 @@ func runC36(c *eng.Ctx) {
 			return strings.Join(uniq(sortStrings(got)), "+"), true
 		}
 		want := map[pt]string{
-			{true, false, true, false}:  "delete",
-			{false, true, false, true}:  "create",
-			{true, true, true, true}:    "create+delete+update", // update, falling back to delete+create when the old entry is missing at the sink
-			{true, true, true, false}:   "delete",
-			{true, true, false, true}:   "create",
-			{true, true, false, false}:  "",
+			{true, false, true, false}:   "delete",
+			{false, true, false, true}:   "create",
+			{true, true, true, true}:     "create+delete+update", // update, falling back to delete+create when the old entry is missing at the sink
+			{true, true, true, false}:    "delete",
+			{true, true, false, true}:    "create",
+			{true, true, false, false}:   "",
 			{false, false, false, false}: "",
 		}
 		for p, w := range want {
